@@ -23,6 +23,7 @@ import (
 	"sync"
 	"syscall"
 	"testing"
+	"time"
 
 	"github.com/containerd/containerd/v2/core/mount"
 	"github.com/containerd/containerd/v2/core/snapshots"
@@ -191,6 +192,7 @@ type verifEnv struct {
 	// crash imaging (C09); nil for C08
 	onMarker     func(name string, occ int)
 	onHistoryEnd func()
+	quiet        bool // oracle-only stream: calls are not emitted for the model
 	occ          map[string]int
 	curOpObj     *verifOp
 	curBefore    *verifView
@@ -601,7 +603,9 @@ func (e *verifEnv) reset(cfg [3]bool) {
 		e.t.Fatalf("NewSnapshotter on a fresh root: %v", err)
 	}
 	e.sn = sn
-	e.out.Emit("reset "+verifCfgStr(cfg), "ok")
+	if !e.quiet {
+		e.out.Emit("reset "+verifCfgStr(cfg), "ok")
+	}
 }
 
 func (e *verifEnv) endHistory() {
@@ -729,8 +733,10 @@ func (e *verifEnv) exec(op *verifOp) (res verifResult, before, after *verifView)
 		r += ":" + res.detail
 	}
 	opLine := fmt.Sprintf("%s %s order=%s %s", op.name, op.orc.fields(), verifUnmountOrder(res.trace), op.args())
-	e.out.Emit(strings.TrimSpace(opLine),
-		fmt.Sprintf("r=%s tr=%s ls=%s meta=%s", r, verifTraceStr(res.trace), verifLsStr(after.ids, after.temps), after.metaStr()))
+	if !e.quiet {
+		e.out.Emit(strings.TrimSpace(opLine),
+			fmt.Sprintf("r=%s tr=%s ls=%s meta=%s", r, verifTraceStr(res.trace), verifLsStr(after.ids, after.temps), after.metaStr()))
+	}
 	e.out.Count(op.name)
 	e.out.Count(op.name + "/" + res.class)
 	e.curOpIdx++
@@ -1566,5 +1572,330 @@ func TestVerifC08(t *testing.T) {
 	n := verifutil.EnvInt("VERIF_N", 150)
 	for h := 0; h < n; h++ {
 		e.runHistory(8+e.rnd.Intn(28), nil)
+	}
+}
+
+// ---------------------------------------------------------------------------------------------
+// concurrent callers (oracle only; the model is sequential)
+//
+// The crash-point markers double as deterministic synchronisation points: when the chosen
+// marker fires inside an API call ("outer"), ONE other API call ("inner") is started in a second
+// goroutine and given a bounded time.  On the unchanged code a writer blocks on bolt's single
+// writer lock until the outer transaction is over (it then finishes after the outer call has
+// returned, where it is joined); a reader, or a call arriving outside the outer transaction, may
+// complete inside the window.  Afterwards the C08 clauses that do not depend on the schedule are
+// evaluated: every live snapshot still has its directory, the mounts handed out exist, an
+// unmounted directory belongs to no live snapshot, and after one final Cleanup the directories on
+// disk are exactly those of the live snapshots.
+
+type verifConcCall struct {
+	name                string // prepare view commit mounts remove cleanup walk stat
+	key, parent, target string
+	labels              string
+}
+
+func (c verifConcCall) String() string {
+	return strings.TrimSpace(fmt.Sprintf("%s %s %s %s %s", c.name, c.key, c.parent, c.target, c.labels))
+}
+
+func (e *verifEnv) rawCall(c verifConcCall) ([]mount.Mount, error) {
+	ctx := context.Background()
+	var o []snapshots.Opt
+	if l := verifParseLabels(c.labels); l != nil {
+		o = append(o, snapshots.WithLabels(l))
+	}
+	switch c.name {
+	case "prepare":
+		return e.sn.Prepare(ctx, c.key, c.parent, o...)
+	case "view":
+		return e.sn.View(ctx, c.key, c.parent, o...)
+	case "commit":
+		return nil, e.sn.Commit(ctx, c.target, c.key, o...)
+	case "mounts":
+		return e.sn.Mounts(ctx, c.key)
+	case "remove":
+		return nil, e.sn.Remove(ctx, c.key)
+	case "cleanup":
+		return nil, e.sn.(snapshots.Cleaner).Cleanup(ctx)
+	case "walk":
+		return nil, e.sn.Walk(ctx, func(context.Context, snapshots.Info) error { return nil })
+	case "stat":
+		_, err := e.sn.Stat(ctx, c.key)
+		return nil, err
+	}
+	e.t.Fatalf("rawCall %q", c.name)
+	return nil, nil
+}
+
+// concurrentStep runs `outer`; when `marker` fires for the occ-th time inside it, `inner` is started
+// in a second goroutine.  Returns false if the marker never fired (inner not run).
+func (e *verifEnv) concurrentStep(outer, inner verifConcCall, marker string, occ int, wait time.Duration) bool {
+	what := fmt.Sprintf("outer [%s] / inner [%s] started at %s#%d", outer, inner, marker, occ)
+	fail := func(sig, format string, a ...any) {
+		e.out.Fail(sig, what+": "+fmt.Sprintf(format, a...))
+	}
+	before := verifTakeView(e.root, e.sn, e.live)
+	e.mu.Lock()
+	e.orc = verifNoFaults()
+	e.trace = nil
+	e.occ = map[string]int{}
+	e.curOp = "concurrent " + what
+	e.mu.Unlock()
+
+	var (
+		launched  bool
+		innerDone = make(chan struct{})
+		innerErr  error
+		inWindow  bool
+		seen      int
+		lmu       sync.Mutex
+	)
+	prev := e.onMarker
+	e.onMarker = func(name string, _ int) {
+		// markers of the inner call arrive on its own goroutine after the launch: ignored
+		lmu.Lock()
+		if launched || name != marker {
+			lmu.Unlock()
+			return
+		}
+		seen++
+		if seen != occ {
+			lmu.Unlock()
+			return
+		}
+		launched = true
+		lmu.Unlock()
+		go func() {
+			defer close(innerDone)
+			_, innerErr = e.rawCall(inner)
+		}()
+		select {
+		case <-innerDone:
+			inWindow = true
+		case <-time.After(wait):
+		}
+	}
+	ms, outerErr := e.rawCall(outer)
+	e.mu.Lock()
+	e.onMarker = prev
+	e.mu.Unlock()
+	if !launched {
+		return false
+	}
+	select {
+	case <-innerDone:
+	case <-time.After(20 * time.Second):
+		fail("concurrent-call-hung", "the inner call did not return within 20s after the outer call returned")
+		e.t.Fatalf("inner call hung: %s", what)
+	}
+	e.out.Count("conc/" + outer.name + "+" + inner.name)
+	e.out.Count("conc@" + marker)
+	if inWindow {
+		e.out.Count("conc/inner-completed-in-window")
+	} else {
+		e.out.Count("conc/inner-blocked-until-outer-finished")
+	}
+	e.out.Distinct(fmt.Sprintf("conc/%s/%s/%s/%v/%s/%s", outer.name, inner.name, marker, inWindow, verifErrClass(outerErr), verifErrClass(innerErr)))
+
+	// ---- schedule-independent C08 clauses ----
+	e.mu.Lock()
+	trace := append([]verifTok(nil), e.trace...)
+	e.mu.Unlock()
+	after := verifTakeView(e.root, e.sn, e.live)
+	cleaning := outer.name == "cleanup" || inner.name == "cleanup"
+	for _, k := range after.order {
+		i := after.infos[k]
+		need := []string{"fs"}
+		if i.kind == snapshots.KindActive {
+			need = append(need, "work")
+		}
+		for _, sub := range need {
+			if _, err := os.Stat(filepath.Join(e.root, "snapshots", i.id, sub)); err != nil {
+				sig := "live-snapshot-dir-missing-after-concurrent-calls"
+				if cleaning {
+					sig = "live-snapshot-dir-removed-by-concurrent-cleanup"
+				}
+				fail(sig, "live snapshot %s (id %s) has no %s directory (inner completed inside the window: %v)", k, i.id, sub, inWindow)
+			}
+		}
+	}
+	if outerErr == nil && ms != nil {
+		for _, m := range ms {
+			paths := []string{}
+			if m.Type == "bind" {
+				paths = append(paths, m.Source)
+			}
+			for _, o := range m.Options {
+				for _, pre := range []string{"workdir=", "upperdir="} {
+					if strings.HasPrefix(o, pre) {
+						paths = append(paths, strings.TrimPrefix(o, pre))
+					}
+				}
+				if strings.HasPrefix(o, "lowerdir=") {
+					paths = append(paths, strings.Split(strings.TrimPrefix(o, "lowerdir="), ":")...)
+				}
+			}
+			for _, p := range paths {
+				if _, err := os.Stat(p); err != nil {
+					fail("mounts-handed-out-for-missing-dir", "the outer call returned %v but %s does not exist", ms, p)
+				}
+			}
+		}
+	}
+	for _, t := range trace {
+		if t.kind == 'U' && t.id != "t" && after.hasID(t.id) {
+			fail("unmount-of-live-snapshot", "Unmount(%s) but the snapshot is live after both calls returned", t.id)
+		}
+	}
+	for mpath := range after.live {
+		if _, err := os.Stat(mpath); err != nil {
+			fail("mount-without-dir", "live backend mount on %s whose directory is gone", mpath)
+		}
+	}
+	bIDs := map[string]bool{}
+	for _, id := range before.ids {
+		bIDs[id] = true
+	}
+	unmounted := map[string]bool{}
+	for _, t := range trace {
+		if t.kind == 'U' {
+			unmounted[t.id] = true
+		}
+	}
+	aIDs := map[string]bool{}
+	for _, id := range after.ids {
+		aIDs[id] = true
+	}
+	for id := range bIDs {
+		if !aIDs[id] && !unmounted[id] {
+			fail("rmdir-without-unmount", "directory %s deleted without an Unmount call", id)
+		}
+	}
+	// one final Cleanup: exactly the live snapshots' directories remain
+	e.mu.Lock()
+	e.trace = nil
+	e.curOp = "final cleanup after " + what
+	e.mu.Unlock()
+	cerr := e.sn.(snapshots.Cleaner).Cleanup(context.Background())
+	fin := verifTakeView(e.root, e.sn, e.live)
+	var want []string
+	for _, k := range fin.order {
+		want = append(want, fin.infos[k].id)
+	}
+	sort.Slice(want, func(i, j int) bool { return verifIDLess(want[i], want[j]) })
+	if cerr != nil || verifLsStr(want, 0) != verifLsStr(fin.ids, fin.temps) {
+		fail("cleanup-not-exact-after-concurrent-calls", "Cleanup err=%v, directories %s, live snapshot ids %s", cerr, verifLsStr(fin.ids, fin.temps), verifJoin(want))
+	}
+	return true
+}
+
+var verifConcMarkers = []string{"create.tempdir", "create.txcreate", "create.renamed", "create.committed",
+	"prepare.mounted", "commit.beforetx", "prepare.targetcommitted", "remove.txcommitted",
+	"cleanupdir.unmounted", "cleanupdir.removed"}
+
+func (e *verifEnv) genConcCall(v *verifView, outer bool) verifConcCall {
+	pick := func(pred func(verifInfo) bool, def string) string {
+		if k, ok := e.pickKey(v, pred); ok {
+			return k
+		}
+		return def
+	}
+	w := []int{30, 10, 10, 10, 20, 20, 0, 0}
+	if !outer {
+		w = []int{15, 5, 5, 15, 15, 35, 5, 5}
+	}
+	switch e.rnd.Pick(w...) {
+	case 0:
+		c := verifConcCall{name: "prepare", key: e.fresh("k"), parent: pick(verifIsCommitted, ""), labels: "-"}
+		if e.rnd.Intn(100) < 45 {
+			c.labels = "@ref=" + e.fresh("c")
+		}
+		return c
+	case 1:
+		return verifConcCall{name: "view", key: e.fresh("v"), parent: pick(verifIsCommitted, ""), labels: "-"}
+	case 2:
+		return verifConcCall{name: "commit", key: pick(verifIsActive, "nope"), target: e.fresh("c"), labels: "-"}
+	case 3:
+		return verifConcCall{name: "mounts", key: pick(func(i verifInfo) bool { return !verifIsCommitted(i) }, "nope"), labels: "-"}
+	case 4:
+		return verifConcCall{name: "remove", key: pick(verifAny, "nope"), labels: "-"}
+	case 5:
+		return verifConcCall{name: "cleanup", labels: "-"}
+	case 6:
+		return verifConcCall{name: "walk", labels: "-"}
+	}
+	return verifConcCall{name: "stat", key: pick(verifAny, "nope"), labels: "-"}
+}
+
+// TestVerifC08Conc — the concurrent-callers stream (oracle only, nothing is emitted for the model).
+func TestVerifC08Conc(t *testing.T) {
+	e := verifNewEnv(t, "C08")
+	e.quiet = true
+	defer e.finish()
+	wait := time.Duration(verifutil.EnvInt("VERIF_CONC_WAIT_MS", 200)) * time.Millisecond
+	seq := func(ops ...*verifOp) {
+		for _, op := range ops {
+			op.orc = verifNoFaults()
+			if op.labels == "" {
+				op.labels = "-"
+			}
+			e.exec(op)
+		}
+	}
+	// scripted: a GC Cleanup arrives while a Prepare/View is between "directory renamed" and
+	// "metadata committed" (and at the neighbouring points), sync and async removal
+	for _, async := range []bool{true, false} {
+		for _, mk := range []string{"create.renamed", "create.txcreate", "create.tempdir", "create.committed"} {
+			for _, kind := range []string{"prepare", "view"} {
+				e.reset([3]bool{async, false, false})
+				seq(&verifOp{name: "prepare", key: "b0"}, &verifOp{name: "commit", target: "base", key: "b0"},
+					&verifOp{name: "prepare", key: "g1", parent: "base"}, &verifOp{name: "remove", key: "g1"},
+					&verifOp{name: "prepare", key: "r0", parent: "base", labels: "@ref=rem"})
+				if !e.concurrentStep(verifConcCall{name: kind, key: "cont", parent: "rem", labels: "-"},
+					verifConcCall{name: "cleanup", labels: "-"}, mk, 1, wait) {
+					t.Fatalf("marker %s never fired", mk)
+				}
+			}
+		}
+	}
+	// random pairs
+	n := verifutil.EnvInt("VERIF_N", 40)
+	for h := 0; h < n; h++ {
+		e.reset([3]bool{e.rnd.Bool(), false, false})
+		for i, nops := 0, 3+e.rnd.Intn(8); i < nops; i++ {
+			v := verifTakeView(e.root, e.sn, e.live)
+			op := e.genOp(v)
+			if op.name == "close" || op.name == "restart" {
+				continue
+			}
+			op.orc = verifNoFaults()
+			e.exec(op)
+		}
+		for j, reached := 0, 0; j < 9 && reached < 3; j++ {
+			v := verifTakeView(e.root, e.sn, e.live)
+			outer := e.genConcCall(v, true)
+			inner := e.genConcCall(v, false)
+			var mks []string
+			switch outer.name {
+			case "prepare":
+				mks = verifConcMarkers[:4]
+				if outer.labels != "-" {
+					mks = verifConcMarkers[:7]
+				}
+			case "view":
+				mks = verifConcMarkers[:4]
+			case "commit":
+				mks = []string{"commit.beforetx"}
+			case "remove":
+				mks = []string{"remove.txcommitted", "cleanupdir.unmounted", "cleanupdir.removed"}
+			default:
+				mks = []string{"cleanupdir.unmounted", "cleanupdir.removed"}
+			}
+			if e.concurrentStep(outer, inner, mks[e.rnd.Intn(len(mks))], 1, wait) {
+				reached++
+			} else {
+				e.out.Count("conc/marker-not-reached")
+			}
+		}
 	}
 }
